@@ -9,6 +9,7 @@ import (
 	"go.uber.org/zap/zapio"
 	"go.uber.org/zap/zaptest/observer"
 
+	"verif/simsync"
 	"verif/zsim"
 )
 
@@ -83,6 +84,13 @@ func runC17(c *Ctx) {
 		events = append(events, event{kind: 'W', chunk: stream[pos:]})
 	}
 
+	// an ordinary logger shares zap's internal pools with the writer
+	simsync.SetPolicy(simsync.PoolLIFO, 1, 0)
+	guardDone := guardOn(c)
+	defer guardDone()
+	otherSink := zsim.NewSimSink(r, "other", 1, 5)
+	other := zap.New(zapcore.NewCore(zapcore.NewJSONEncoder(encCfg()), zapcore.Lock(otherSink), zapcore.DebugLevel))
+	otherN := 0
 	lvl := zap.NewAtomicLevelAt(zapcore.InfoLevel)
 	core, logs := observer.New(lvl)
 	wr := &zapio.Writer{Log: zap.New(core), Level: pick(g, zapcore.InfoLevel, zapcore.WarnLevel)}
@@ -152,6 +160,10 @@ func runC17(c *Ctx) {
 				}
 				ed = append(ed, fmt.Sprintf("level-enabled=%v", enabled))
 			}
+			if i%3 == 1 {
+				otherN++
+				other.Info("unrelated entry of another logger", zap.Int("n", otherN), zap.String("pad", "0123456789abcdef"))
+			}
 			c.MixState(uint64(ev.kind)<<16 | uint64(len(ev.chunk))<<4 | uint64(strings.Count(string(ev.chunk), "\n")))
 			// the messages logged so far are exactly the reference's
 			if got := logs.Len(); got != len(want) {
@@ -172,6 +184,10 @@ func runC17(c *Ctx) {
 	c.Describe("stream=%q", stream)
 	c.Describe("events: %s Close", strings.Join(ed, " "))
 	c.Nontrivial = writes >= 2 && newlines >= 1
+	if n := strings.Count(string(otherSink.Data), "\n"); n != otherN || strings.Count(string(otherSink.Data), `"msg":"unrelated entry of another logger"`) != otherN {
+		c.Fail("C17: the writer disturbed an unrelated logger sharing zap's pools", "%d entries logged, sink holds %d lines: %q", otherN, n, clip(otherSink.Data))
+		return
+	}
 	if toggles > 0 {
 		c.Fault("level-toggle")
 	}
